@@ -12,6 +12,7 @@ mod refcodec;
 mod report;
 mod rt;
 mod sink;
+mod universal;
 
 use report::{Opts, Tier};
 
@@ -96,6 +97,7 @@ fn main() {
         build: option_env!("VERIF_BUILD").unwrap_or("verif").to_string(),
         scale,
         extra,
+        cross: None,
     };
     pool::install_panic_hook();
 
